@@ -9,9 +9,10 @@ CONSTANTS
   MaxWrites = 2
   MaxStale = 1
   Eager = FALSE
-  Kinds = {"frame","frag"}
+  Kinds = {"frame","frag","key","aud"}
   FragFormats = {"f1"}
   DevCountFramesOnly = FALSE
+  DevSharedScratch = FALSE
 INVARIANTS TypeOK PropAccounted PropExact PropAllReceived PropStoppedQuiet
-PROPERTIES StepOnlyOrder StepSkipOnlyWhenFull StepNoCallbackAfterEnd
+PROPERTIES StepUnmodified StepOnlyOrder StepSkipOnlyWhenFull StepNoCallbackAfterEnd
 CHECK_DEADLOCK FALSE
